@@ -183,7 +183,86 @@ class SStr:
         return "SStr(" + "+".join(repr(p) for p in self.parts) + ")"
 
 
+def _rne_div(num, d):
+    """round-half-even of num / d (d a positive concrete int) as a z3 Int"""
+    if d == 1:
+        return num
+    q, r = num / d, num % d
+    return q + z3.If(z3.Or(2 * r > d, z3.And(2 * r == d, q % 2 == 1)), 1, 0)
+
+
+class SDecVal:
+    """Result of round(x, k) for a symbolic float: the double nearest to D / 10**k (D a z3 Int).  Decimal values with a
+    few digits are ordered and formatted like the decimals themselves: a value that is exactly a tie (x.5 at the digit
+    dropped by a shorter format) is exactly representable in binary, so half-to-even applies to it as to the decimal."""
+    def __init__(self, D, k):
+        self.D, self.k = D, k
+
+    def _cmp(self, o, op):
+        from fractions import Fraction
+        if isinstance(o, SDecVal):
+            kk = max(self.k, o.k)
+            return SBoolRef(op(self.D * 10 ** (kk - self.k), o.D * 10 ** (kk - o.k)))
+        if isinstance(o, bool) or not isinstance(o, (builtins.int, builtins.float)):
+            return NotImplemented
+        q = Fraction(o) * 10 ** self.k
+        return SBoolRef(op(self.D * q.denominator, q.numerator))
+
+    def __lt__(self, o): return self._cmp(o, lambda a, b: a < b)
+    def __le__(self, o): return self._cmp(o, lambda a, b: a <= b)
+    def __gt__(self, o): return self._cmp(o, lambda a, b: a > b)
+    def __ge__(self, o): return self._cmp(o, lambda a, b: a >= b)
+    def __eq__(self, o): return self._cmp(o, lambda a, b: a == b)
+    def __ne__(self, o): return self._cmp(o, lambda a, b: a != b)
+    __hash__ = None
+
+    def decimal(self, spec):
+        m = re.fullmatch(r"(,?)\.(\d+)f", spec)
+        if not m:
+            raise OutsideModel(f"format spec {spec!r} on a rounded symbolic float")
+        n = builtins.int(m.group(2))
+        if n >= self.k:
+            D = self.D * 10 ** (n - self.k)
+        else:
+            D = _rne_div(self.D, 10 ** (self.k - n))
+        return SDecimal(z3.simplify(D), n, grouping=bool(m.group(1)), src=self)
+
+    def __format__(self, spec):
+        return _register(self.decimal(spec))
+
+
+def SBoolRef(e):
+    from .core import SBool
+    return SBool(e)
+
+
+def sym_round(x, ndigits=None):
+    """round(x, k) of a symbolic float: exact half-to-even rounding of the double's value to k decimals"""
+    if isinstance(x, (SInt,)):
+        if ndigits is None or ndigits >= 0:
+            return x
+        raise OutsideModel("round of an integer to negative digits")
+    if isinstance(x, SQuot) or type(x).__name__ in ("SDy",):
+        n, d = exact_num_den(x)
+        k = ndigits or 0
+        if k < 0:
+            raise OutsideModel("round to negative digits")
+        D = z3.simplify(_rne_div(n * 10 ** k, d))
+        if ndigits is None:
+            return SInt(D, "int")
+        return SDecVal(D, k)
+    if isinstance(x, SDecVal):
+        if ndigits is not None and ndigits >= x.k:
+            return x
+        k = ndigits or 0
+        D = z3.simplify(_rne_div(x.D, 10 ** (x.k - k)))
+        return SInt(D, "int") if ndigits is None else SDecVal(D, k)
+    return builtins.round(x) if ndigits is None else builtins.round(x, ndigits)
+
+
 def sym_format(x, spec=""):
+    if isinstance(x, SDecVal):
+        return x.decimal(spec)
     if isinstance(x, (SInt, SQuot)) or type(x).__name__ in ("SDy", "SRl"):
         return SDecimal.of(x, spec)
     return builtins.format(x, spec)
